@@ -53,8 +53,11 @@ send_envelope(const unsigned int recodeflag, const char *sender, int rcptcount, 
 		}
 /* MAIL FROM: reply */
 		if (checkreply(" ZD", mailerrmsg, 6) >= 300) {
+			/* the message status has already been written: just consume the
+			 * outstanding replies, stop if that is not possible */
 			for (int i = rcptcount; i > 0; i--)
-				checkreply(NULL, NULL, 0);
+				if (checkreply(NULL, NULL, 0) < 0)
+					break;
 			return 1;
 		}
 /* RCPT TO: replies */
